@@ -21,7 +21,8 @@ WITNESSES = [
     ('rescan:function-like-macro-re-entered-in-own-rescan', '#define ID(x) x\nint u = ID ( ID ) ( 3 ) ;\n'),
     ('rescan:function-like-macro-re-entered-in-own-rescan', '#define M0(p0, ...) M1\n#define M1 M0 ( )\nint u = M0 ( 0 , 0 ) ;\n'),
     ('rescan:self-referential-object-macro-in-argument', '#define M2 M2 "s"\n#define M1(p0) p0\nint u = M1 ( M2 ) ;\n'),
-    ('stringify:empty-argument', '#define S(x) #x\nint u = S ( ) 1 ;\n'),
+    ('stringify:absent-variable-argument', '#define V(a, ...) [ #__VA_ARGS__ ]\nint u = V ( 1 ) ;\n'),
+    ('stringify:variadic-arguments-rejoined-with-comma-space', '#define W(...) #__VA_ARGS__\nint u = W(2,3) ;\n'),
     ('stringify:argument-of-nested-call-expanded-first', '#define M0(p0) p0 # p0\n#define M2 q\n#define M3 M0 ( M2 )\nint u = M0 ( M3 ) ;\n'),
     ('va_opt:variable-argument-expanding-to-nothing', '#define E\n#define V(...) [ __VA_OPT__ ( c ) ]\nint u = V ( E ) ;\n'),
     ('hash-in-object-like-macro', '#define O # x\nint u = O 1 ;\n'),
